@@ -25,6 +25,23 @@ fn tx(ops: Vec<OpSpec>) -> Action {
     Action::Tx { ops, commit: true }
 }
 
+/// Does the scratch file system accept a database opened with direct_writes?  (Decided once.)
+fn direct_open_works() -> bool {
+    static ANSWER: std::sync::OnceLock<bool> = std::sync::OnceLock::new();
+    *ANSWER.get_or_init(|| {
+        let path = format!("/dev/shm/vcheck.directprobe.{}", std::process::id());
+        let _ = std::fs::remove_file(&path);
+        let ok = crate::real::guarded(|| {
+            let db = Cfg { pagesize: 1024, num_pages: 8, direct: true, ..Cfg::default() }.open(&path)?;
+            let tx = db.tx(true)?;
+            tx.create_bucket("p")?.put("k", "v")?;
+            tx.commit()
+        });
+        let _ = std::fs::remove_file(&path);
+        matches!(ok, Ok(Ok(())))
+    })
+}
+
 pub fn scripts(tier: Tier) -> Vec<Script> {
     let mut out = vec![];
     let small = |ps: u64, np: usize| Cfg { pagesize: ps, num_pages: np, ..Cfg::default() };
@@ -231,6 +248,42 @@ pub fn scripts(tier: Tier) -> Vec<Script> {
         acts.push(tx(vec![OpSpec::put(&["b"], "k2", "y*310"), OpSpec::put(&["b"], "k5", "u*300")]));
         acts.push(tx(vec![OpSpec::put(&["b"], "k4", "z*290"), OpSpec::del(&["b"], "k0")]));
         out.push(Script { name, cfg: small(1024, 64), actions: acts });
+    }
+    // the same with the two header pages exchanged (a valid file whose newest header sits where a
+    // rule based on the parity of the transaction id would not look for it)
+    for (name, extra) in [("exchanged-slots-then-updates", 0usize), ("exchanged-slots-after-odd-commits-then-updates", 1)] {
+        let mut acts = vec![
+            tx({
+                let mut v = vec![OpSpec::bucket("create", &[], "b")];
+                for k in crate::drivers::KV_KEYS {
+                    v.push(OpSpec::put(&["b"], k, "w*300"));
+                }
+                v
+            }),
+            tx(vec![OpSpec::put(&["b"], "k0", "y*310"), OpSpec::put(&["b"], "k3", "u*300")]),
+        ];
+        for _ in 0..extra {
+            acts.push(tx(vec![OpSpec::put(&["b"], "k1", "z*290")]));
+        }
+        acts.push(Action::SwapSlots);
+        acts.push(tx(vec![OpSpec::put(&["b"], "k2", "y*310"), OpSpec::put(&["b"], "k5", "u*300")]));
+        acts.push(tx(vec![OpSpec::put(&["b"], "k4", "z*290"), OpSpec::del(&["b"], "k0")]));
+        out.push(Script { name, cfg: small(1024, 64), actions: acts });
+    }
+    // the update chain on a handle opened with direct_writes (O_DIRECT): the same durability points
+    // (skipped where the file system refuses such an open)
+    if direct_open_works() {
+        let mut chain = vec![tx({
+            let mut v = vec![OpSpec::bucket("create", &[], "b")];
+            for k in crate::drivers::KV_KEYS {
+                v.push(OpSpec::put(&["b"], k, "w*300"));
+            }
+            v
+        })];
+        for i in 0..3 {
+            chain.push(tx(vec![OpSpec::put(&["b"], crate::drivers::KV_KEYS[i % 6], if i % 2 == 0 { "y*310" } else { "z*290" }), OpSpec::put(&["b"], crate::drivers::KV_KEYS[(i + 3) % 6], "u*300")]));
+        }
+        out.push(Script { name: "direct-writes-update-chain", cfg: Cfg { pagesize: 1024, num_pages: 64, direct: true, ..Cfg::default() }, actions: chain });
     }
     // the persisted free list walked across the capacity of one list page (123 ids at page size
     // 1024), one delete per commit with a reopen in between: the commits around the exact fit are
